@@ -20,7 +20,9 @@ open SigModel.Proto SigModel.Bus
 structure St where
   model : State := State.init
   own : Bool := false
+  /-- listeners whose next callback will block at entry (armed), and (listener, subscriber) pairs blocked -/
   held : List Nat := []
+  blocked : List (Nat × Nat) := []
   rereg : List (Nat × Nat) := []
   reported : Nat := 0
   hist : Hist := {}
@@ -41,7 +43,9 @@ def subAct (d : St) (k : Nat) : Option St :=
   | none =>
   match b.pending with
   | some l =>
-    if d.held.contains l then none else
+    if d.blocked.contains (l, k) then none
+    else if d.held.contains l then some { d with held := d.held.erase l, blocked := (l, k) :: d.blocked }
+    else
     match call st k with
     | some st' =>
       if d.rereg.contains (l, b.subj) then
@@ -179,24 +183,26 @@ def histOfEvents (evs : List String) : Option Hist := do
     | ["re", c] =>
       let c ← toNat? c
       let o ← opn.find? (fun o => o.c == c && o.kind == "r")
-      h := { h with regs := h.regs ++ [{ l := o.l, s := o.s, ts := o.ts, te := t }] }
+      h := { h with regs := { l := o.l, s := o.s, ts := o.ts, te := t } :: h.regs }
       opn := opn.filter (fun o => o.c != c)
     | ["ue", c] =>
       let c ← toNat? c
       let o ← opn.find? (fun o => o.c == c && o.kind == "u")
-      h := { h with unregs := h.unregs ++ [{ l := o.l, s := o.s, ts := o.ts, te := t }] }
+      h := { h with unregs := { l := o.l, s := o.s, ts := o.ts, te := t } :: h.unregs }
       opn := opn.filter (fun o => o.c != c)
     | ["pe", c, idx] =>
       let c ← toNat? c
       let o ← opn.find? (fun o => o.c == c && o.kind == "p")
-      h := { h with pubs := h.pubs ++ [{ s := o.s, idx := ← toNat? idx, ts := o.ts, te := t }] }
+      h := { h with pubs := { s := o.s, idx := ← toNat? idx, ts := o.ts, te := t } :: h.pubs }
       opn := opn.filter (fun o => o.c != c)
     | ["rv", l, idx, s] =>
-      h := { h with recvs := h.recvs ++ [{ l := ← toNat? l, idx := ← toNat? idx, s := ← toNat? s, t := t }] }
+      h := { h with recvs := { l := ← toNat? l, idx := ← toNat? idx, s := ← toNat? s, t := t } :: h.recvs }
     | _ => none
     t := t + 1
   -- every call has returned when the recording ends
-  if opn.isEmpty then some h else none
+  -- (the records were consed: restore recording order)
+  if opn.isEmpty then some { regs := h.regs.reverse, unregs := h.unregs.reverse, pubs := h.pubs.reverse, recvs := h.recvs.reverse }
+  else none
 
 def histSummary (h : Hist) : String :=
   s!"hist regs={h.regs.length} unregs={h.unregs.length} pubs={h.pubs.length} recvs={h.recvs.length}"
@@ -252,7 +258,7 @@ def step (d : St) (op impl : List String) : St × String × String :=
     | none => (d, "bad-op", "na")
   | ["release", l] =>
     match toNat? l with
-    | some l => finishOp { d with held := d.held.filter (· ≠ l) } impl
+    | some l => finishOp { d with held := d.held.filter (· ≠ l), blocked := d.blocked.filter (·.1 ≠ l) } impl
     | none => (d, "bad-op", "na")
   | "rereg" :: l :: s :: _ =>
     match toNat? l, toNat? s with
@@ -266,7 +272,7 @@ def step (d : St) (op impl : List String) : St × String × String :=
       (List.range d.model.nsubs).all fun k =>
         let b := d.model.sub k
         !b.attached || (b.chan.isEmpty && b.cur.isNone)
-    let complete := quiet && !d.model.dropped && d.held.isEmpty
+    let complete := quiet && !d.model.dropped && d.blocked.isEmpty
     let out := (if out == "ok" then "ok" else out) ++ (if complete then " complete" else " partial")
     -- the implementation's own claim decides which clauses are judged
     let implComplete := impl.contains "complete"
